@@ -1,5 +1,7 @@
 import Driver.Lb
+import Driver.LbSpec
 def main (args : List String) : IO UInt32 := do
   match args with
   | ["lb"] => Driver.Lb.main; return 0
-  | _ => IO.eprintln "usage: npdriver lb"; return 2
+  | ["lbspec", ops, impl] => Driver.LbSpec.main ops impl; return 0
+  | _ => IO.eprintln "usage: npdriver lb | lbspec <ops> <impl>"; return 2
